@@ -207,12 +207,43 @@ func (e *Exec) evalExternal(call *ast.CallExpr, st *State, ctx *Ctx) []string {
 				}
 			}
 		}
+	case "encoding/base64.Encoding.EncodeToString":
+		e.note("base64.StdEncoding.EncodeToString is the uninterpreted function b64 (assumed to be standard base64)")
+		return []string{"(b64 " + arg(0) + ")"}
+	case "crypto/sha256.New":
+		h := e.fresh(st, "hasher", "Int")
+		if e.hashOf == nil {
+			e.hashOf = map[string]string{}
+		}
+		e.hashOf[h] = `""`
+		e.note("crypto/sha256 + encoding/hex are the uninterpreted functions sha256raw / hexenc applied to everything written to the hasher (assumed)")
+		return []string{h}
+	case "encoding/hex.EncodeToString":
+		return []string{"(hexenc " + arg(0) + ")"}
 	case "os.Environ":
 		e.note("os.Environ() is the constant osEnviron: the environment does not change during an evaluation (assumed)")
 		return []string{"osEnviron"}
 	case "os.Exit":
 		e.evalArgs(call, st, ctx)
 		return nil
+	}
+	// a hasher created by sha256.New(): Write appends to its input, Sum(nil) is the digest of everything written
+	if sel, ok := call.Fun.(*ast.SelectorExpr); ok && e.hashOf != nil {
+		if id, ok := sel.X.(*ast.Ident); ok {
+			if v, ok := info.ObjectOf(id).(*types.Var); ok {
+				if h, ok := st.env[v]; ok {
+					if cur, ok := e.hashOf[h]; ok {
+						switch sel.Sel.Name {
+						case "Write":
+							e.hashOf[h] = "(str.++ " + cur + " " + arg(0) + ")"
+							return e.havocResults(call, st, ctx, "hashwrite")
+						case "Sum":
+							return []string{"(sha256raw " + cur + ")"}
+						}
+					}
+				}
+			}
+		}
 	}
 	// function literals handed to external code (regexp.ReplaceAllStringFunc): the body is executed once from an
 	// arbitrary state so that its obligations are generated; the variables it assigns are forgotten afterwards
